@@ -250,3 +250,80 @@ func bcastOverlap(c *vkit.Case) {
 		cancel()
 	}
 }
+
+// deadlineEntry: a waiter enters Wait with a context whose DEADLINE passes around the moment of
+// entry (swept from a few microseconds before to a few after; the context's own timer may not
+// have fired yet, so ctx.Err() can still be nil although the deadline has passed). Nobody
+// signals. Wait may only return the context's error without the lock; a nil return would have
+// to hold the lock (and nobody woke it: recorded as spurious, judged only for the lock).
+func deadlineEntry(c *vkit.Case) {
+	r := c.R
+	rnd := c.Rand
+	mu := &sync.Mutex{}
+	l := &cntLocker{inner: mu}
+	cond := xsync.NewContextCond(l)
+	if rnd.Bool(0.3) {
+		cond.Broadcast()
+	}
+	lead := time.Duration(rnd.Range(20, 120)) * time.Microsecond
+	off := time.Duration(rnd.Intn(16000)-4000) * time.Nanosecond // entry at deadline -4us .. +12us
+	var ctx context.Context
+	var cancel context.CancelFunc
+	dl := time.Now().Add(lead)
+	switch rnd.Intn(3) {
+	case 0:
+		ctx, cancel = context.WithDeadline(context.Background(), dl)
+	case 1:
+		ctx, cancel = context.WithTimeout(context.Background(), time.Until(dl))
+	default:
+		ctx, cancel = context.WithDeadlineCause(context.Background(), dl, errAppCause)
+	}
+	defer cancel()
+	done := make(chan struct{})
+	var err error
+	heldAfterNil := true
+	go func() {
+		defer close(done)
+		target := dl.Add(off)
+		for time.Now().Before(target) {
+		}
+		mu.Lock()
+		err = cond.Wait(ctx)
+		if err == nil {
+			if mu.TryLock() {
+				heldAfterNil = false
+				mu.Unlock()
+			} else {
+				mu.Unlock()
+			}
+		}
+	}()
+	v, dump := vkit.Await(done, vkit.AwaitOpts{Soft: 2 * time.Second, Gap: 200 * time.Millisecond, Hard: 60 * time.Second})
+	r.Eval(1)
+	r.Count("deadline-entry", "rounds", 1)
+	what := fmt.Sprintf("deadline-entry: Wait entered %s relative to the context's deadline, nobody signals", off)
+	switch v {
+	case vkit.AwaitStuck:
+		c.Violation("expired-wait-stuck", what+": Wait never returned although the context's deadline has passed", map[string]any{"goroutines": dump})
+		cond.Broadcast()
+		return
+	case vkit.AwaitInconclusive:
+		r.Inconclusive("deadline-entry: neither returned nor parked")
+		return
+	}
+	switch {
+	case err == nil && !heldAfterNil:
+		c.Violation("nil-without-lock", what+": Wait returned nil WITHOUT holding the lock (and nobody had signalled)", nil)
+	case err == nil:
+		r.Count("deadline-entry", "nil return with the lock held (spurious wake-up, not judged)", 1)
+	case err != context.DeadlineExceeded:
+		c.Violation("wrong-error", fmt.Sprintf("%s: Wait returned %v, want the context's error %v", what, err, context.DeadlineExceeded), nil)
+	default:
+		if !mu.TryLock() {
+			c.Violation("error-with-lock", what+": Wait returned the context's error but still holds the lock", nil)
+		} else {
+			mu.Unlock()
+		}
+		r.Count("deadline-entry", "context error without the lock", 1)
+	}
+}
